@@ -85,14 +85,21 @@ Proof. exact run_observes_reachable. Qed.
 Print Assumptions c16_run_observes_reachable.
 
 (* the boolean spec the harness applies to the implementation accepts every observation of
-   the model, for the clauses "last epoch loads with its parameters" and "history is a
-   prefix": keep last and best, epoch formats, any crash schedule *)
+   the model, for the clauses "last epoch loads with its parameters", "best epoch (earliest
+   epoch no other beats) loads with its parameters" and "history is a prefix": keep last and
+   best, epoch formats, any crash schedule *)
 Theorem c16_spec_accepts_model_klb : forall P E crashes o,
   epf P -> klb P = true ->
   In o (run_schedule P E empty_disk 0 crashes) ->
-  p_last o = true /\ p_prefix (csv (final P E empty_disk 0)) o = true.
+  p_last o = true /\ p_best P o = true /\ p_prefix (csv (final P E empty_disk 0)) o = true.
 Proof. exact spec_accepts_model_klb. Qed.
 Print Assumptions c16_spec_accepts_model_klb.
+
+(* get_best_epoch's fold returns the declarative best epoch of the spec *)
+Theorem c16_best_epoch_is_best : forall b c n,
+  map r_epoch c = seq 1 n -> is_best_b b c (best_epoch b c) = true.
+Proof. exact best_epoch_is_best. Qed.
+Print Assumptions c16_best_epoch_is_best.
 
 (* ---- what is false of the faithful model (known findings), with witnesses ---- *)
 
